@@ -59,15 +59,21 @@ static void check_domain(const char *sub, const unsigned char *d, size_t n) {
     int hasat = 0; for (size_t i = 0; i < n; i++) if (d[i] == '@') hasat = 1;
     if (hasat) return;
     /* through the address validators */
-    buf[0] = 'x'; buf[1] = '@'; memcpy(buf + 2, d, n); buf[n + 2] = 0;
     int exp6 = expect_6531(d, n, exp);
     if (exp6 == exp) MC_ADD(C_6531EXACT, 1);
+    /* the domain verdict must not depend on the local part in front of it: the length generators (L3*) also run behind a maximal local part
+     * of 64 octets (a limit on the whole address would show there and nowhere else) */
+    int nlp = (sub[0] == 'L' && sub[1] == '3' && n + 70 < sizeof buf) ? 2 : 1;
+    for (int lpv = nlp - 1; lpv >= 0; lpv--) {
+    size_t off = lpv ? 65 : 2;
+    if (lpv) { memset(buf, 'q', 64); buf[64] = '@'; } else { buf[0] = 'x'; buf[1] = '@'; }
+    memcpy(buf + off, d, n); buf[n + off] = 0;
     for (int m = 0; m < 4; m++) {
-        eav_result_t *r = EMAIL[m](buf, n + 2, false);
+        eav_result_t *r = EMAIL[m](buf, n + off, false);
         int e = (m == 3) ? exp6 : exp;
         MC_ADD(C_EVAL, 1);
         if ((r->rc == 0) != (e == R_ACC)) {
-            char cfg[32], w[96]; snprintf(cfg, sizeof cfg, "ctx=email mode=%s", MN[m]);
+            char cfg[32], w[96]; snprintf(cfg, sizeof cfg, "ctx=email mode=%s lp=%d", MN[m], lpv ? 64 : 1);
             snprintf(w, sizeof w, "%s:%s", MN[m], why_str(whyset, r->rc, e));
             mc_violation(sub, w, "", cfg, d, n, "is_%s_email(x@D, tld off): reference %s, library rc=%d idn_rc=%d", MN[m], e == R_ACC ? "ACCEPT" : "REJECT", r->rc, r->idn_rc);
         }
@@ -75,7 +81,8 @@ static void check_domain(const char *sub, const unsigned char *d, size_t n) {
             mc_violation(sub, "accepted-without-is_domain", "", "ctx=email", d, n, "mode %s accepted a host name but is_domain is not set", MN[m]);
         eav_result_free(r);
     }
-    /* is_utf8_domain directly */
+    }
+    /* is_utf8_domain directly (buf holds x@D here: the short local part ran last) */
     int ir = 0;
     int rc8 = is_utf8_domain(&ir, buf + 2, buf + 2 + n, false);
     MC_ADD(C_EVAL, 1);
